@@ -31,13 +31,13 @@ func init() {
 	fw.Register(&fw.Check{
 		ID:   "C18",
 		Race: true,
-		Rule: "Each case runs one ez entry point (YAML/JSON/TOML/Cue named entry points and the by-extension one) on a static config type with 10 leaves: every leaf is assigned to a seeded subset of {default, file, environment, flag} with distinct values, the file path is supplied by default, environment or flag (and the file also tries to set the path leaf), FlagSource is a std-flag or pflag NewSetWithArgs set or the default flag.CommandLine path (re-created per case; some cases call the entry point twice on the same CommandLine), with and without file watching. " +
+		Rule: "Each case runs one ez entry point (YAML/JSON/TOML/Cue named entry points and the by-extension one) on a static config type with 10 leaves (plus an embedded struct of three leaves, each of which is assigned to its own subset of the four layers; the file layer of those through YAML with FlattenAnonymousFields): every leaf is assigned to a seeded subset of {default, file, environment, flag} with distinct values, the file path is supplied by default, environment or flag (and the file also tries to set the path leaf), FlagSource is a std-flag or pflag NewSetWithArgs set or the default flag.CommandLine path (re-created per case; some cases call the entry point twice on the same CommandLine), with and without file watching. " +
 			"Oracles: the first visible config equals the reference stack default < file < env < flag; the harness Verify() logs the file-marker leaf of every receiver - it must be set in every logged call when a file is configured and there must be at least one call; after return a non-blocking receive on Events() finds nothing and the OnNewConfig/OnWatchedError logs are empty; configs valid only with the file must succeed; a missing or malformed file and a failing Verify must return errors (wrapping the cause); with watching on, the file is rewritten and the new view must again follow the precedence, every new Verify call sees the file layer, and OnNewConfig now fires. " +
 			"distinct_nontrivial = distinct (entry point, flag source, path origin, watch, assignment matrix) signatures with >=1 leaf assigned to >=2 layers.",
 		Assumptions: []string{"the environment is the worker process's own (cleared at start; cases run serially within a worker)"},
 		MinDistinct: map[string]int{"quick": 1000, "thorough": 150000},
 		MinCounters: map[string]map[string]int64{
-			"quick":    {"first_views_compared": 700, "verify_calls_with_file_layer": 700, "error_cases_checked": 150, "watched_rewrites_converged": 100, "events_channel_checked_empty": 700},
+			"quick":    {"first_views_compared": 700, "verify_calls_with_file_layer": 700, "error_cases_checked": 150, "watched_rewrites_converged": 100, "events_channel_checked_empty": 700, "yaml_files_setting_some_but_not_all_leaves_of_the_embedded_struct": 60},
 			"thorough": {"first_views_compared": 200000},
 		},
 		Plan: func(tier string) fw.Plan {
@@ -87,9 +87,12 @@ type c18Verify struct {
 	alpha  int
 }
 
-// C18Emb is embedded in the config: with FlattenAnonymousFields its leaf's YAML key moves to the top level.
+// C18Emb is embedded in the config: with FlattenAnonymousFields its leaves' YAML keys move to the top level.
+// It has three leaves so that a file can set any subset of them (the first only, a middle one, all but the last, ...).
 type C18Emb struct {
-	Omega int `dials:"omega"`
+	Omega int     `dials:"omega"`
+	Psi   string  `dials:"psi"`
+	Tau   float64 `dials:"tau"`
 }
 
 type c18Cfg struct {
@@ -374,6 +377,61 @@ func runC18(w *fw.Worker) {
 				want.Omega = n
 			}
 		}
+		// the embedded struct's other two leaves: each assigned to a subset of {default, file, env, flag} drawn from a
+		// stream of its own (so that the file sets any subset of the embedded struct's leaves); the file layer needs
+		// YAML with FlattenAnonymousFields, which these draws may switch on as well
+		{
+			r2 := fw.NewRand(fw.Mix(w.CaseSeed(i), 0xe3bedded))
+			fileOK := format == "yaml" && mode != "no-file" && mode != "empty-path-reported-set"
+			if fileOK && !flattenAnon && r2.Chance(50) {
+				flattenAnon = true
+			}
+			n2 := 700000 + 16*i
+			fileSet := 0
+			if _, ok := doc["omega"]; ok {
+				fileSet |= 1
+			}
+			for k, leaf := range []string{"psi", "tau"} {
+				set := func(c *c18Cfg) (string, any) {
+					n2++
+					if leaf == "psi" {
+						c.Psi = fmt.Sprintf("s%d", n2)
+						return c.Psi, c.Psi
+					}
+					c.Tau = float64(n2) + 0.25
+					return fmt.Sprint(c.Tau), c.Tau
+				}
+				mask := r2.Intn(16)
+				if mask&1 != 0 {
+					set(cfg)
+					if leaf == "psi" {
+						want.Psi = cfg.Psi
+					} else {
+						want.Tau = cfg.Tau
+					}
+				}
+				if mask&2 != 0 && fileOK && flattenAnon {
+					_, fv := set(&want)
+					doc[leaf] = fv
+					fileSet |= 2 << k
+				}
+				if mask&4 != 0 {
+					text, _ := set(&want)
+					os.Setenv(strings.ToUpper(leaf), text)
+				}
+				if mask&8 != 0 {
+					text, _ := set(&want)
+					argv = append(argv, "--"+leaf+"="+text)
+				}
+			}
+			if fileOK && flattenAnon {
+				w.Count("yaml_flattened_embedded_struct_cases", 1)
+				w.SetAdd("embedded_struct_leaves_set_by_the_file(bit0=first..bit2=last)", fmt.Sprintf("%03b", fileSet))
+				if fileSet != 0 && fileSet != 7 {
+					w.Count("yaml_files_setting_some_but_not_all_leaves_of_the_embedded_struct", 1)
+				}
+			}
+		}
 		// pointer leaves: defaults share one variable in some cases; the file sets at most one of them
 		{
 			shared := 5000 + i
@@ -598,7 +656,7 @@ func runC18(w *fw.Worker) {
 				if k == "config_file" || k == "config-file" {
 					doc2["config_file"] = v
 				}
-				if sk := strings.ReplaceAll(k, "-", "_"); sk == "ptr_a" || sk == "ptr_b" || sk == "omega" {
+				if sk := strings.ReplaceAll(k, "-", "_"); sk == "ptr_a" || sk == "ptr_b" || sk == "omega" || sk == "psi" || sk == "tau" {
 					doc2[sk] = v // the rewritten file keeps the pointer leaves as they were
 				}
 			}
